@@ -129,6 +129,36 @@ def run(ctx):
       probs.append(('agnostic.domain_metrics', f'domain sums {dl} counts {dn}, batch-free values are {[f(e) for e in c["dl"]]} counts {c["dn"]}'))
     for nm, msg in probs[:2]:
       ctx.violation(f'replay:{nm}', f'{msg}; w={w} lam={lam} data={c["data"]} layout={c["layout"]}', replay={'cfg': cfg, 'expected': {k: c[k] for k in ('bgrads', 'avgloss', 'fullgrad', 'dl', 'dn')}})
+  # the packaged regulariser (fedjax.regularizers.l2_regularizer) with centres / per-parameter weights: a sequence of regularisers
+  # of equal weight and structure but different VALUES, evaluated one after the other (fresh and long-lived evaluators): every
+  # average loss is the batch-free mean loss plus ITS OWN regulariser, once
+  from fedjax.core import regularizers  # pylint: disable=g-import-not-at-top
+  reg_n = 0
+  for ci, c in enumerate(cases[:(8 if big else 3)]):
+    w = f(c['w'])
+    params = {'w': jnp.float32(w)}
+    batches = []
+    for b in c['layout']:
+      xs = [float(c['data'][s - 1]['x']) if s else 5.0 for s in b]
+      batches.append({'x': np.array(xs, np.float32), 'domain_id': np.zeros(len(b), np.int32), '__mask__': np.array([s != 0 for s in b])})
+    real = [float(c['data'][s - 1]['x']) for b in c['layout'] for s in b if s]
+    mean_loss = float(np.mean([0.5 * (w - x) ** 2 for x in real])) if real else 0.0
+    for lamw in (0.25, 0.5):
+      for (centre, pw) in ((1.0, None), (-2.0, None), (0.5, 2.0), (0.5, 3.0), (None, 0.5), (None, 1.5)):
+        reg = regularizers.l2_regularizer(lamw, center_params=None if centre is None else {'w': jnp.float32(centre)},
+                                          params_weights=None if pw is None else {'w': jnp.float32(pw)})
+        want = mean_loss + lamw * (1.0 if pw is None else pw) * (w - (centre or 0.0)) ** 2
+        got = {'evaluate_average_loss': float(models.evaluate_average_loss(params, batches, key, loss, reg)),
+               'AverageLossEvaluator': float(dict(models.AverageLossEvaluator(loss, reg).evaluate_global_params(params, [(b'c', batches, key)]))[b'c']),
+               'grad': None}
+        reg_n += 1
+        cfgr = dict(data=c['data'], w=w, layout=c['layout'], weight=lamw, centre=centre, params_weight=pw)
+        ctx.case(key=('l2_regularizer', ci, lamw, centre, pw), nontrivial=True)
+        for nm, gv in got.items():
+          if gv is not None and (not np.isfinite(gv) or abs(gv - want) > 1e-5 * (1 + abs(want))):
+            ctx.violation(f'replay:{nm}:l2_regularizer', f'{nm} = {gv} with l2_regularizer({lamw}, centre={centre}, params_weights={pw}); mean loss + this regulariser once is {want} '
+                          f'for {cfgr}', replay={'cfg': cfgr})
+  replayed += reg_n
   ctx.trace_ok(replayed)
   ctx.leg('R', layouts_enumerated=len(cases), replays=replayed)
   ctx.sample({'case': {k: cases[0][k] for k in ('data', 'w', 'lam', 'layout', 'bgrads', 'avgloss', 'fullgrad')}})
